@@ -398,7 +398,10 @@ func (c *c12) binding(thorough bool) {
 		}
 		muts := []mut{
 			{"identical", func(i *opchildtypes.BridgeInfo) {}, true},
-			{"config changed (oracle flag, metadata)", func(i *opchildtypes.BridgeInfo) { i.BridgeConfig.OracleEnabled = true; i.BridgeConfig.Metadata = []byte("x") }, true},
+			{"config changed (oracle flag, metadata)", func(i *opchildtypes.BridgeInfo) {
+				i.BridgeConfig.OracleEnabled = true
+				i.BridgeConfig.Metadata = []byte("x")
+			}, true},
 			{"bridge id", func(i *opchildtypes.BridgeInfo) { i.BridgeId++ }, false},
 			{"bridge address", func(i *opchildtypes.BridgeInfo) { i.BridgeAddr = ophosttypes.BridgeAddress(i.BridgeId + 1).String() }, false},
 			{"L1 chain id", func(i *opchildtypes.BridgeInfo) { i.L1ChainId = "other-l1" }, false},
